@@ -480,7 +480,7 @@ pub fn result_json(run: &Run, scenario: &str) -> Value {
         "stats": run.stats,
         "notes": run.notes,
         "panics": panics,
-        "progress": {"client_requests": run.conns.iter().map(|c| c.2.results.len()).sum::<usize>(), "relayed": relayed, "status_polls_ok": h.status_ok, "host_requests": h.log.len()},
+        "progress": {"client_requests": run.conns.iter().map(|c| c.2.results.len()).sum::<usize>(), "relayed": relayed, "status_polls_ok": h.status_ok, "host_requests": h.log.len(), "disk_ops": seams::disk_ops()},
         "plan": run.plan,
         "samples": run.samples,
         "tail": tail,
